@@ -122,10 +122,10 @@ class ListProxy(list, ContainerValueMixin):
         )
 
     def _get_item_position(self, item: Any) -> str:
-        try:
-            return str(self.index(item))
-        except:  # noqa: E722
-            return str(len(self))
+        for index, value in enumerate(self):
+            if value is item:
+                return str(index)
+        return str(len(self))
 
 
 class ListField(Field):
